@@ -1,6 +1,7 @@
 //! C03 harness: no input can crash, wedge or exhaust a parser.
 //!
-//! Three modes, one binary:
+//! Three modes, one binary (main.rs = supervisor, input plan, the parsers; worker.rs = the worker side, shared
+//! with the tokio twin /verif/harness-tokio/src/bin/parsefuzz.rs):
 //!
 //! * `parsefuzz run ...`   SUPERVISOR. Reads the input families printed by TLC (spec/mutants, JSON lines),
 //!   expands them (short-string groups, seeds for the seeded random generator), feeds every input under every
@@ -8,7 +9,7 @@
 //!   abort / kill / stack overflow to the input in flight (the first unanswered one), restarts the worker and
 //!   continues.  Writes one ndjson record per (input, delivery): the outcome log that TLC validates with
 //!   Trace_Mutants.tla.  The protocol (pipelined window, attribution, restart) is the one modelled in
-//!   spec/mutants/ParseSup.tla.
+//!   spec/mutants/ParseSup.tla.  `--worker-exe` selects another worker binary (the tokio twin serves `reqtk`).
 //! * `parsefuzz worker ...` WORKER.  RLIMIT_AS, counting #[global_allocator] (peak and largest single request
 //!   during each call), catch_unwind, a watchdog thread; the parser runs on a thread with a 2 MiB stack (the
 //!   size Rust gives to the handler threads the real server parses on).
@@ -19,15 +20,16 @@
 //! wsframe = humphrey_ws frame decoder (Frame::from_stream through humphrey_ws::verif::decode),
 //! wsmsg / wsmsgnb = WebsocketStream::recv / recv_nonblocking (Message::from_stream[_nonblocking]) over a
 //! socketpair, json = humphrey_json::Value::parse, conf = humphrey_server::config::tree::parse_conf.
+//! `selftest` is not a parser: a stand-in that panics / aborts / overflows the stack / exhausts memory / hangs on
+//! demand, with which the check proves that every kind of misbehaviour is observed and attributed.
 //!
 //! Deliveries: `w` all-at-once and `b` one byte per read() through a scripted `Read` (req, resp, wsframe);
-//! wsmsg: `w` (all bytes in the socket before the call) and `d` (a feeder thread drips single bytes: best effort,
+//! wsmsg: `w` (all bytes written before the peer goes on reading) and `d` (the peer drips single bytes: best effort,
 //! the exact byte-by-byte schedule is exercised on the frame decoder, which is the same code); json / conf take a
 //! complete &str: `s` (the bytes are valid UTF-8) or `l` (invalid UTF-8: the type system keeps such input away
 //! from the parser; what a caller can pass is the lossy conversion, and that is what is parsed).
 //!
 //! Nothing here decides the property: the records are judged by TLC (Trace_Mutants.tla, operator ParseGuard).
-
 
 mod worker;
 
